@@ -393,7 +393,7 @@ Definition prim_read (c : rctx) (k : prim_kind) (data : list Z) : result (value 
     end
   | KBinaryData => Ok (VBytes data, [])
   | KVolumeAdjustment =>
-    if zlen data <? 2 then Raise EStruct
+    if zlen data <? 2 then Raise EMutagen   (* SpecError("not enough data"), a MutagenError for the frame reader *)
     else Ok (VInt (signed 16 (be_decode (ztake 2 data))), zdrop 2 data)
   | KVolumePeak =>
     match vp_read data with
